@@ -19,7 +19,7 @@ from core.guards import f_and, f_not, f_or
 from core.loader import AnalysisError, ClassInfo, FuncInfo, Repo
 from core.report import Result
 
-from .c16_logic import Enc, equivalent, facts, implies, is_collection, mentions, satisfiable, strip_wrappers
+from .c16_logic import Enc, equivalent, facts, implies, mentions, satisfiable, strip_wrappers
 from .c16_r1 import RawFlow, seeds
 from .c16_sym import NONE_T, SELF, Event, Run, SymExec, Term, phi_leaves, show, show_pc, subterms
 from .common import types_of
@@ -166,7 +166,21 @@ class Builder:
         if t[0] == "comp" or t[0] == "call":
             if self.pending(t) is not None:
                 return "#PENDING"
+        if self.layer_names(t):
+            return "#LAYERS"
         return None
+
+    def layer_names(self, t: Term) -> bool:
+        """t is the mapping itself or a collection of all its keys (`d`, `d.keys()`, `list(d)`, `[k for k in d]`, `[k for k, _ in d.items()]`)."""
+        t = strip_wrappers(t, ("list", "tuple", "set", "frozenset", "sorted"))
+        if t == self.store or t == ("mcall", self.store, "keys", ()):
+            return True
+        if t[0] == "comp" and t[1] != "dict" and len(t[3]) == 1 and not t[3][0][1]:
+            it, bv = t[3][0][0], ("bv", t[4])
+            if it == ("mcall", self.store, "items", ()):
+                return t[2] == ("item", bv, 0)
+            return t[2] == bv and self.layer_names(it)
+        return False
 
     def pending_terms(self, r: Run) -> list[Term]:
         seen: list[Term] = []
